@@ -1,6 +1,8 @@
 import Glom.Lemmas.C07
 import Glom.Lemmas.RepIndMain
+import Glom.Lemmas.C07Vis
 import Glom.Model.Frames
+import Glom.Spec.InterpFacts
 /-
   C07 — Scope bindings are lexically scoped, chain forward, never outlive the call.
 
@@ -14,6 +16,10 @@ import Glom.Model.Frames
 namespace Glom.Props.C07
 open Glom.Interp ScopeAlg
 
+/-- **facts obligation**: the decision logic of the interpreter core extracted from /repo on this
+    run has the shape the model mirrors (`Glom/Spec/InterpFacts.lean`) -/
+theorem c07_facts_wf : c07FactsWF = true := by decide
+
 /-- **The ChainMap of frames is a lexical scope.**  `_glom` pushes a frame (child sees all the
     parent sees), `scope[k] = v` writes the head frame (visible to the holder, shadows outer
     bindings, changes nothing else), `chain_child` hands the finished child's bindings to the next
@@ -24,7 +30,11 @@ theorem c07_frames_lawful : LawfulScope Frames := inferInstance
     Fill / argument-mode container rebuilders call the evaluator at the container's own scope
     `sc` only: whatever the evaluator does at any *other* scope (in particular at the scopes the
     siblings finished in) cannot influence the outcome.  Hence a binding made in one dict value,
-    list element or branch is invisible to the others and to the enclosing spec. -/
+    list element or branch is invisible to the others and to the enclosing spec.
+    (In the model this holds *by construction*: a scope is an immutable value, and these loops pass
+    the same `sc` to every sub-spec — the theorem records that shape of the loops, nothing deeper.
+    That the real ChainMap frames are not mutated from below is what the correspondence and the
+    independent checker `checkVis` — `c07_model_checks` — observe on the implementation.) -/
 theorem c07_siblings_isolated {σ : Type} [ScopeAlg σ] (p : Prims) (rec1 rec2 : Rec σ) (target : V) (sc : σ)
     (h : AgreeAt rec1 rec2 sc) :
     (∀ es acc, dictLoop p rec1 target sc es acc = dictLoop p rec2 target sc es acc) ∧
@@ -158,10 +168,13 @@ theorem c07_inspect_own_scope {σ : Type} [ScopeAlg σ] [LawfulScope σ] (p : Pr
     rw [hr] at h
     cases r1 with
     | error e =>
-      simp only [M.bind_apply] at h
-      rcases hpm : callOpt p pm st1 with ⟨st2, r2⟩
-      rw [hpm] at h
-      cases r2 <;> simp [M.throw] at h
+      simp only at h
+      split at h
+      · simp [M.throw] at h
+      · simp only [M.bind_apply] at h
+        rcases hpm : callOpt p pm st1 with ⟨st2, r2⟩
+        rw [hpm] at h
+        cases r2 <;> simp [M.throw] at h
     | ok w =>
       simp only [M.pure_apply, Prod.mk.injEq, Except.ok.injEq] at h
       obtain ⟨_, _, hc⟩ := h
@@ -380,6 +393,97 @@ theorem c07_model_eq_reference (p : Prims) (fuel : Nat) (spec : Spec) (t : V) (c
   simp only [mapSc, M.bind_apply, topResult]
   rcases interp p fuel spec t root st0 with ⟨s1, r1⟩
   cases r1 <;> rfl
+
+/-! ### the checker theorem: static lexical visibility -/
+
+/-- the root frame `glom()` builds shows what the static root environment says: the caller's mapping
+    (a later entry of the mapping wins), `globals` is glom's, every other name is unbound -/
+theorem c07_root_agrees (st : St) (callerScope : List (String × V)) :
+    Agree (rootScope st callerScope).1 (rootSEnv callerScope) := by
+  have hobs := (c07_root_obs st callerScope).1
+  intro k
+  have hl : lookup (rootScope st callerScope).1 k = (rootObs st callerScope).1.lookup k := by
+    have := congrArg (fun o => o.lookup k) hobs
+    simpa [obsOf] using this
+  rw [hl]
+  simp only [rootObs, rootSEnv]
+  suffices h : ∀ (cs : List (String × V)) (f : String → Option V) (e : SEnv),
+      (match SEnv.get e k with | .known v => f k = some v | .unbound => f k = Option.none | .unknown => True) →
+      (match SEnv.get ((cs.map (fun kv => (kv.1, SVal.known kv.2))).reverse ++ e) k with
+        | .known v => (cs.foldl (fun f kv => fun k' => if k' = kv.1 then some kv.2 else f k') f) k = some v
+        | .unbound => (cs.foldl (fun f kv => fun k' => if k' = kv.1 then some kv.2 else f k') f) k = Option.none
+        | .unknown => True) by
+    apply h
+    simp only [senv_get_cons]
+    by_cases hk : "globals" = k
+    · simp [hk]
+    · have : ("globals" == k) = false := by simpa using hk
+      simp [this, SEnv.get, Ne.symm hk]
+  intro cs
+  induction cs with
+  | nil => intro f e h; simpa using h
+  | cons kv rest ih =>
+    intro f e h
+    simp only [List.map_cons, List.reverse_cons, List.append_assoc, List.foldl_cons]
+    apply ih
+    simp only [List.singleton_append, senv_get_cons]
+    by_cases hk : kv.1 = k
+    · simp [hk]
+    · have hk' : (kv.1 == k) = false := by simpa using hk
+      simp only [hk', Bool.false_eq_true, if_false, Ne.symm hk]
+      exact h
+
+/-- **Checker theorem** (`checkVis`, the form the driver evaluates on the implementation's recorded
+    reads): on the visibility fragment — chains in either spelling at any depth, dicts, lists,
+    Coalesce, Switch, the binders `S(k=<literal>)`, `A.k`, `Spec(…, scope=…)`, read probes around
+    `S.name` — every read the model records is the one the static scoping rules demand: the value of
+    the lexically nearest visible binding (a later step of the same chain sees it, everything nested
+    sees it; the enclosing spec, sibling dict values, list elements, Coalesce branches and other
+    Switch cases do not; a Switch key passes it to its own value only; inner shadows outer; the
+    caller's mapping is the outermost layer), or PathAccessError when there is none. -/
+theorem c07_model_checks (eqV : V → V → Bool) (heq : ∀ v, eqV v v = true) (p : Prims)
+    (hT : ∀ v, p.tEval [] v = .ok v) (fuel : Nat) (spec : Spec) (t : V) (callerScope : List (String × V))
+    (hf : vfragF fuel spec = true) :
+    checkVis eqV fuel spec callerScope (readsOf (glomTop p fuel spec t callerScope {}).1.log) = true := by
+  have hag := c07_root_agrees {} callerScope
+  obtain ⟨evs, hlog, hr, _⟩ := interp_vis (σ := Frames) eqV heq p hT fuel spec t (rootScope {} callerScope).1
+    (rootSEnv callerScope) (rootScope {} callerScope).2 hf rfl rfl hag
+  have hst0 : (rootScope {} callerScope).2.log = [] := rfl
+  rw [hst0, List.nil_append] at hlog
+  have hfst : ∀ (o : St × Except Err (V × Frames)), (topResult o).1 = o.1 := by
+    intro o; rcases o with ⟨st', r⟩; cases r <;> rfl
+  simp only [checkVis, glomTop, hfst, hlog, List.all_eq_true, List.any_eq_true, Bool.and_eq_true, beq_iff_eq]
+  intro r hrm
+  obtain ⟨w, hw, hok⟩ := hr r hrm
+  exact ⟨(r.1, w), hw, rfl, hok⟩
+
+/-- **What a step hands to the next link**: on the fragment, a step that succeeds finishes in a scope
+    that shows exactly the static environment extended by `exportsOf step` — `S(k=v, …)` binds its
+    keywords to their values (the later keyword wins), `A.k` binds `k`, `Spec(…, scope=…)` its
+    mapping, every other step (a nested chain, a dict, a list, a Coalesce, a Switch, a read probe)
+    nothing. -/
+theorem c07_step_exports (eqV : V → V → Bool) (heq : ∀ v, eqV v v = true) (p : Prims)
+    (hT : ∀ v, p.tEval [] v = .ok v) {σ : Type} [ScopeAlg σ] [LawfulScope σ] (fuel : Nat) (spec : Spec) (t : V)
+    (sc : σ) (env : SEnv) (st : St) (hf : vfragF fuel spec = true) (hm : mode sc = .auto) (ha : argMode sc = false)
+    (hag : Agree sc env) (v : V) (c' : σ) (hok : (interp p fuel spec t sc st).2 = .ok (v, c')) :
+    Agree c' (exportsOf spec ++ env) := by
+  obtain ⟨_, _, _, h⟩ := interp_vis (σ := σ) eqV heq p hT fuel spec t sc env st hf hm ha hag
+  exact h v c' hok
+
+-- the fragment of the checker theorem is inhabited by nested chains with binders, readers, dicts, Switch
+example : vfragF 8 (.pipe [.sBind [("k", .lit (.str "outer"))],
+    .pipe [.sBind [("k", .lit (.str "inner"))], .dict false [(.str "x", .rprobe 1 (.sRead "k" []))]],
+    .switch [(.aBind "j", .rprobe 2 (.sRead "j" []))] Option.none, .rprobe 3 (.sRead "k" [])]) = true := by decide
+
+/-- **A Switch key passes its bindings to its own value only** (instance of the checker theorem made
+    explicit): in `Switch([(S(k='a'), probe₁), …])` the value of the first case reads `'a'`; a read of `k`
+    in another case, or after the Switch, sees what was visible before the Switch. -/
+example : expectReads 8 .auto false (rootSEnv [("k", .str "caller")])
+    (.tuple [.switch [(.sBind [("k", .lit (.str "a"))], .rprobe 1 (.sRead "k" [])),
+                      (.t [], .rprobe 2 (.sRead "k" []))] Option.none,
+             .rprobe 3 (.sRead "k" [])]) =
+    [(1, .known (.str "a")), (2, .known (.str "caller")), (3, .known (.str "caller"))] := by
+  rfl
 
 /-! ### non-vacuity -/
 
